@@ -917,6 +917,33 @@ def circle_through(p1, p2, p3):
     """
     return sphere_through(np.stack([p1, p2, p3], axis=-2))
 
+def circumcenter(points):
+    """Get the point equidistant from k+1 affinely independent points in
+    R^n, lying in the affine subspace they span.
+
+    For two points, this is the midpoint.
+
+    Parameters
+    ----------
+    points : ndarray of shape `(..., k+1, n)`
+        Euclidean coordinates of k+1 points in R^n
+
+    Returns
+    -------
+    ndarray of shape `(..., n)`
+        the center of the unique (k-1)-sphere through the given
+        points in their affine span.
+    """
+    p0 = points[..., :1, :]
+    diffs = points[..., 1:, :] - p0
+
+    # center = p0 + t @ diffs, where 2 * <diffs_i, center - p0> = |diffs_i|^2
+    gram = diffs @ diffs.swapaxes(-1, -2)
+    halfsq = normsq(diffs)[..., np.newaxis, :] / number(2, like=gram)
+    coeffs = halfsq @ invert(gram)
+
+    return np.squeeze(p0 + coeffs @ diffs, axis=-2)
+
 def sphere_through(points):
     """Get the unique k-sphere passing through k+2 points in R^(k+1).
 
